@@ -29,7 +29,7 @@ CFG = {'streams': [{'name': 'C14',
                 'index order with its id, edges once each in strictly ascending sink order, unique keys, exact type tags); value_cmp is a strict '
                 'total order and sets are emitted strictly sorted without duplicates; pretty lines = node line, name-sorted attribute lines, edge '
                 'lines with their sorted attribute lines; parsing the lines back yields exactly the nodes, sinks, attribute names and Debug texts; '
-                'the text splits into exactly those lines. TEXT level (Model/JsonText.v = serde_json PrettyFormatter + string escaping + u32 decimals, '
+                'the text splits into exactly those lines; equal pretty TEXTS imply equal skeletons (pretty_text_determines_skel: the text alone determines node count, sinks, attribute names and Debug texts). TEXT level (Model/JsonText.v = serde_json PrettyFormatter + string escaping + u32 decimals, '
                 'texts as lists of scalar values): parse_json (print_pretty j) = (j, nothing left) for EVERY value tree j with any fuel >= its size '
                 '(the length of the text always suffices), also with surrounding whitespace; print_pretty injective; escape_roundtrip for all '
                 'strings; no character below U+0020 in the output except layout line feeds, none inside string literals; well-formed trees print '
